@@ -22,7 +22,7 @@ SRC_GCP = 'batch/batch/cloud/gcp/resource_utils.py'
 SRC_AZURE = 'batch/batch/cloud/azure/resource_utils.py'
 SRC_ICC = 'batch/batch/inst_coll_config.py'
 COQ_PROPS = 'theories/Resources/Props_C12.v'
-READY = False
+READY = True
 META = dict(
     design_ref='§5.B C12',
     technique='Coq proofs about the resource-arithmetic helpers translated from the Python source (floats read as exact rationals, fail-closed '
